@@ -35,8 +35,10 @@ impl Analyzer
 		let mut recoverable_error = None;
 		for scope in &self.label_stack
 		{
+			// Search from the back: of several labels with this name, the one
+			// that was declared last is the one nearest in the source.
 			if let Some(previous_identifier) =
-				scope.iter().find(|x| x.name == identifier.name)
+				scope.iter().rev().find(|x| x.name == identifier.name)
 			{
 				// Because we analyze labels backwards, the previous label is
 				// the one that should be marked as a duplicate.
